@@ -116,6 +116,10 @@ class DocStyleDeme(AbstractDeme):
         return population
 
 
+class DocStyleDemeB(DocStyleDeme):
+    """another deme class registered for DocStyleConfig by a second tree of the same process"""
+
+
 SEA_CLASSES = {"SEA": SEA, "SEAX": SEAWithCrossover, "GA": GAStyleSEA, "ADAPT": SEAWithAdaptiveMutation, "MWEA": MWEA,
                "MEMETIC": MemeticSEA}
 POP_ENGINES = set(SEA_CLASSES) | {"DE", "DEd", "SHADE"}
@@ -130,6 +134,10 @@ from pyhms.demes.ea_deme import EADeme  # noqa: E402
 
 class CustomDeme(EADeme):
     """A user-defined deme class registered through TreeConfig.config_class_to_deme_class."""
+
+
+class CustomDemeB(EADeme):
+    """another user's deme class for the same configuration class (a second tree in the process maps it differently)"""
 
 
 class RefusalProbe(ProblemWrapper):
@@ -462,6 +470,7 @@ def build(spec: dict):
     if spec.get("fns"):
         rec.fns = list(spec["fns"])
     rec.dump_at = spec.get("dump_at")
+    rec.dump_subprocess = bool(spec.get("dump_subprocess", False))
     script = spec.get("script")
     levels = []
     problems = []
@@ -542,7 +551,7 @@ def cfg_summary(spec: dict) -> dict:
             "cutoff": int(any(w[0] == "cutoff" for w in spec.get("wrappers", []))),
             "wcount": sum(1 for w in spec.get("wrappers", []) if w[0] in ("count", "cutoff", "precision")),
             "idlecheck": int(bool(spec.get("idlecheck", True))),
-            "manual": int((spec.get("drive") or ["run"])[0] != "run"),
+            "manual": int((spec.get("drive") or ["run"])[0] not in ("run", "interleaved")),
             "cache": int(bool(spec.get("use_cache", False))),
             "skipsame": int(spec["sprout"].get("skip_same", False) or any(f[0] == "skipsame" for f in spec["sprout"].get("tree_filters", []))),
             "name": spec.get("name", "")}
